@@ -100,18 +100,24 @@ Definition new_observer (I : instance) (k : okind) : MO nat :=
     bind (set_objs (fun os : list obs => os ++ [o_construct I (core w) k])) (fun _ =>
     bind (subscribe i) (fun _ => ret i))).
 
-(** [create_or_get_observer] with the default condition. *)
-Fixpoint find_sub (os : list obs) (k : okind) (ss : list nat) : option nat :=
+(** [create_or_get_observer]: the FIRST subscriber, in subscription order,
+    that is an instance of the class and satisfies the condition. The
+    condition is modelled as "the object is one of [allowed]" ([None] = the
+    default condition, always true). *)
+Definition cond_ok (allowed : option (list nat)) (i : nat) : bool :=
+  match allowed with None => true | Some l => mem_nat i l end.
+Fixpoint find_sub (os : list obs) (k : okind) (allowed : option (list nat)) (ss : list nat) : option nat :=
   match ss with
   | [] => None
   | i :: t => match nth_error os i with
-              | Some o => if kind_eqb k (kind_of o) then Some i else find_sub os k t
-              | None => find_sub os k t
+              | Some o => if kind_eqb k (kind_of o) && cond_ok allowed i then Some i
+                          else find_sub os k allowed t
+              | None => find_sub os k allowed t
               end
   end.
-Definition create_or_get (I : instance) (k : okind) : MO nat :=
+Definition create_or_get (I : instance) (k : okind) (allowed : option (list nat)) : MO nat :=
   bind (@get obs) (fun w : wld =>
-  match find_sub (objs w) k (subs w) with
+  match find_sub (objs w) k allowed (subs w) with
   | Some i => ret i
   | None => new_observer I k
   end).
